@@ -40,10 +40,13 @@ FLAVOURS = {
 
 EVENTS = {
     "durq": [("push", A), ("push", B), ("pull",), ("extend", "AB"), ("extend", "BB"), ("clear",),
-             ("reopen",), ("resync",)],
+             ("reopen",), ("resync",), ("reopen-pre",), ("extend-bad",)],
     "dusq": [("push", A), ("push", B), ("pull",), ("update", "AB"), ("update", "BB"), ("remove", A), ("remove", B),
-             ("clear",), ("reopen",), ("resync",)],
+             ("clear",), ("reopen",), ("resync",), ("reopen-pre",), ("update-bad",)],
 }
+# reopen-pre: like reopen, but the new queue object already holds [B] when it is attached: a non-empty durable copy wins,
+#             an empty one takes the queue's values (Durq.sync / Dusq.sync as documented)
+# extend-bad / update-bad: the values [A, <not a data object>] are refused as a whole: HierError, nothing changes anywhere
 
 
 def DEPTH(tier):
@@ -184,6 +187,10 @@ def model_step(kind, model, ev):
         return (False, "exc:KeyError"), m
     if op in ("reopen", "resync"):
         return None, m
+    if op == "reopen-pre":
+        return None, (m if m else [B])
+    if op in ("extend-bad", "update-bad"):
+        return ("exc:HierError",), m
     raise ValueError(ev)
 
 
@@ -206,6 +213,14 @@ def real_step(s, ev):
     if op == "reopen":
         s.reopen()
         return None
+    if op == "reopen-pre":
+        s.preload = B
+        s.reopen()
+        return None
+    if op == "extend-bad":
+        return q.extend([s.val(A), "not a data object"])
+    if op == "update-bad":
+        return q.update([s.val(A), "not a data object"])
     if op == "resync":
         s.q.sync(force=True)
         return None
